@@ -113,8 +113,12 @@ impl<F: Fam> Ctx<F> {
         let mut out: Vec<Item> = Vec::with_capacity(n + 8);
         let mut cl: Vec<Item> = Vec::with_capacity(n + 8);
         let mut zipped: Vec<Item> = Vec::with_capacity(n + 8);
+        let mut folded: Vec<Item> = Vec::with_capacity(n + 8);
         let mut errs: Vec<String> = Vec::with_capacity(8);
         let extra = extra % 4;
+        // internal iteration (fold / for_each) of what is left after `skip` calls of next() has to
+        // enumerate exactly what further next() calls enumerate, in the same order
+        let skip = clone_idx.unwrap_or(0).min(n);
         let ((out, cl, zipped, errs), obs) = self.observe(s, true, &[C08], move |m| {
             match kind {
                 IterKind::Iter => drive(m.iter(), n, clone_idx, extra, |i| Some(i.clone()), |(k, v): (&F::K, &F::V)| (k.k(), k.id(), v.v(), v.id()), &mut out, &mut cl, &mut errs, "iter()", 2),
@@ -192,6 +196,78 @@ impl<F: Fam> Ctx<F> {
                     "values_mut()",
                     2,
                 ),
+            }
+            match kind {
+                IterKind::Iter | IterKind::RefIntoIter => {
+                    let mut it = m.iter();
+                    for _ in 0..skip {
+                        it.next();
+                    }
+                    it.for_each(|(k, v)| {
+                        if folded.len() < folded.capacity() {
+                            folded.push((k.k(), k.id(), v.v(), v.id()));
+                        }
+                    });
+                }
+                IterKind::Keys => {
+                    let mut it = m.keys();
+                    for _ in 0..skip {
+                        it.next();
+                    }
+                    let cnt = it.fold(0usize, |acc, k| {
+                        if folded.len() < folded.capacity() {
+                            folded.push((k.k(), k.id(), 0, 0));
+                        }
+                        acc + 1
+                    });
+                    ic!(errs, cnt == n - skip, "keys(): fold visited {} items after {} next() calls, {} remain", cnt, skip, n - skip);
+                }
+                IterKind::Values => {
+                    let mut it = m.values();
+                    for _ in 0..skip {
+                        it.next();
+                    }
+                    it.for_each(|v| {
+                        if folded.len() < folded.capacity() {
+                            folded.push((0, 0, v.v(), v.id()));
+                        }
+                    });
+                }
+                IterKind::IterMut | IterKind::MutIntoIter => {
+                    let mut it = m.iter_mut();
+                    for _ in 0..skip {
+                        it.next();
+                    }
+                    it.for_each(|(k, v)| {
+                        if folded.len() < folded.capacity() {
+                            folded.push((k.k(), k.id(), v.v(), v.id()));
+                        }
+                    });
+                }
+                IterKind::ValuesMut => {
+                    let mut it = m.values_mut();
+                    for _ in 0..skip {
+                        it.next();
+                    }
+                    it.for_each(|v| {
+                        if folded.len() < folded.capacity() {
+                            folded.push((0, 0, v.v(), v.id()));
+                        }
+                    });
+                }
+            }
+            if out.len() == n {
+                let same = match kind {
+                    // the mutable kinds were driven with a write: compare keys / ids only
+                    IterKind::IterMut | IterKind::MutIntoIter | IterKind::ValuesMut => folded.len() == n - skip && folded.iter().zip(out[skip..].iter()).all(|(a, b)| a.0 == b.0 && a.1 == b.1 && a.3 == b.3),
+                    _ => folded.as_slice() == &out[skip..],
+                };
+                ic!(errs, same, "{:?}: internal iteration (fold / for_each) after {} next() calls enumerated {} items in an order or multiset different from what next() yields from there ({} items)", kind, skip, folded.len(), n - skip);
+            }
+            {
+                // allocated outside the measurement window, so it must not be freed inside it
+                let _s = Suspend::new();
+                drop(folded);
             }
             (out, cl, zipped, errs)
         })?;
